@@ -1,5 +1,6 @@
 #!/bin/sh
-# confirm_round.sh <offset>: confirm /tmp/seed/out_Cxx/{1,2,3} and stash them as seeded_pending/Cxx-(k+offset)
+# confirm_round.sh <offset|auto>: (auto = number after the highest kept seed of that property)
+# confirm /tmp/seed/out_Cxx/{1,2,3} and stash them as seeded_pending/Cxx-(k+offset)
 OFF=$1
 cd /verif
 for p in C01 C02 C03 C04 C05 C06 C07 C08 C09 C10 C11 C12 C13 C14 C15 C16 C17 C18 C19 C20; do
@@ -12,7 +13,8 @@ for p in C01 C02 C03 C04 C05 C06 C07 C08 C09 C10 C11 C12 C13 C14 C15 C16 C17 C18
 done | xargs -P 6 -L 1 sh -c 'tools/confirm_seed.sh /tmp/seed/out_$0/$1'
 for p in C01 C02 C03 C04 C05 C06 C07 C08 C09 C10 C11 C12 C13 C14 C15 C16 C17 C18 C19 C20; do
  for k in 1 2 3; do
-  d=/tmp/seed/out_$p/$k; n=$((k+OFF))
+  d=/tmp/seed/out_$p/$k
+  if [ "$OFF" = auto ]; then M=$(ls -d seeded/$p-* 2>/dev/null | sed 's/.*-//' | sort -n | tail -1); n=$((k+${M:-0})); else n=$((k+OFF)); fi
   [ -f $d/demo_mut.out ] || continue
   [ -d seeded/$p-$n ] && continue
   mkdir -p seeded_pending/$p-$n
